@@ -94,6 +94,21 @@ Theorem strategies_cover :
 Proof. exact provided_strategies_cover. Qed.
 Print Assumptions strategies_cover.
 
+(** The public Chunks applies the index's MergeStrategy (nil = Adjacent) to the
+    raw answer at query time.  For EVERY covering strategy — in particular the
+    four provided ones, [strategies_cover] — and every reachable state, the
+    public answer still contains ONE chunk covering each overlapping record
+    (chunks of bins of different levels may be nested here, e.g. after
+    MergeChunks(Squash) a high-level bin's chunk encloses a leaf bin's chunk). *)
+Theorem bai_complete_public :
+  forall s, ix_strategy_covers s ->
+  forall rs ix, ix_wf rs -> ix_bins_ok rs -> reach rs ix ->
+  forall rid beg end_ r, 0 <= beg < end_ -> end_ <= 2 ^ 29 ->
+    In r rs -> ix_overlaps r rid beg end_ ->
+    exists cs, fst (ix_chunks ix rid beg end_) = Ok cs /\ ix_covers (s cs) r.
+Proof. exact bai_complete_public_gen. Qed.
+Print Assumptions bai_complete_public.
+
 (** After WriteIndex and ReadIndex (byte level): the bytes written for the
     built index are read back as [bai_reread ix], which still covers every
     overlapping record.  [idx_ranges]: offsets and counters fit their fields. *)
